@@ -30,7 +30,12 @@ func (ex *Exec) loadPath(v Value, path []PathEl) Value {
 		}
 		if c, ok := el.Idx.ConstInt64(); ok {
 			if c < 0 || int(c) >= len(av.Elems) {
-				panic(ex.unsupported("array index %d out of range %d in load", c, len(av.Elems)))
+				// beyond the physical array: the bounds obligation emitted before this access makes
+				// the path infeasible; any value of the right shape will do
+				if len(av.Elems) == 0 {
+					panic(ex.unsupported("array index %d out of range %d in load", c, len(av.Elems)))
+				}
+				c = 0
 			}
 			v = av.Elems[c]
 			continue
@@ -64,6 +69,9 @@ func (ex *Exec) storePath(v Value, path []PathEl, nv Value, g *Term) Value {
 	av := v.(*ArrayV)
 	out := &ArrayV{Elems: append([]Value(nil), av.Elems...)}
 	if c, ok := el.Idx.ConstInt64(); ok {
+		if c < 0 || int(c) >= len(av.Elems) {
+			return out // infeasible path (bounds obligation already emitted)
+		}
 		out.Elems[c] = ex.storePath(av.Elems[c], path[1:], nv, g)
 		return out
 	}
